@@ -90,6 +90,7 @@ class Builder:
     def __init__(self, G, k, shared=None, on_nested=None):
         self.G, self.k = G, k
         self.nodes = {}
+        self.keep = []
         self.idmap = {}
         self.probes = {}
         self.shared_recipes = shared or []
@@ -102,6 +103,9 @@ class Builder:
     def _reg(self, r, obj):
         n = r.get('n')
         if n is not None:
+            # every labelled object stays alive as long as the builder: a freed node's id() could be
+            # reused by an unrelated result object, which would then carry the dead node's label
+            self.keep.append(obj)
             self.nodes[n] = obj
             if not (isinstance(obj, (tuple, frozenset)) and not obj):
                 # (the empty tuple / frozenset are interpreter-wide singletons: no identity label)
